@@ -473,6 +473,129 @@ theorem T6_complete_counterexample : ¬ T6_complete_statement := by
   rw [ht] at this
   cases this
 
+/-! ### T6 on the prefix rules of py_gram.lark: conditional, walrus, `not`, unary minus -/
+
+def kwPat (s : Str) : Pat := .pattern s .terminal .equals
+
+def sTernary : Str := ['t','e','r','n','a','r','y']
+def sExprMove : Str := ['e','x','p','r','_','m','o','v','e']
+def sCompOr : Str := ['c','o','m','p','_','o','r']
+def sComp : Str := ['c','o','m','p']
+def sOpNot : Str := ['o','p','_','n','o','t']
+def sOpUnary : Str := ['o','p','_','u','n','a','r','y']
+def sPrimary : Str := ['p','r','i','m','a','r','y']
+def sUnaryMinus : Str := ['\\','O','P','_','U','N','A','R','Y','_','M','I','N','U','S']
+
+/-- In the generated table `ternary`, `expr_move`, `comp_not` and `unary` are optional-prefix rules `( G )? N`, and `op_not` /
+    `op_unary` are the bare terminals `"not"` / `"\OP_UNARY_MINUS"` (kernel-decided over the generated rules). -/
+theorem T6_prefix_rules_py :
+    getRule Generated.pyRules sTernary = .ok (optPrefix [.group [symPat sExprMove, kwPat ['i','f'], symPat sExprMove, kwPat ['e','l','s','e']] .and .noRepeat] sExprMove) ∧
+    getRule Generated.pyRules sExprMove = .ok (optPrefix [.group [symPat sCompOr, kwPat [':','=']] .and .noRepeat] sCompOr) ∧
+    getRule Generated.pyRules sCompNot = .ok (optPrefix [symPat sOpNot] sComp) ∧
+    getRule Generated.pyRules sUnary = .ok (optPrefix [symPat sOpUnary] sPrimary) ∧
+    getRule Generated.pyRules sOpNot = .ok (kwPat ['n','o','t']) ∧
+    getRule Generated.pyRules sOpUnary = .ok (kwPat sUnaryMinus) := by
+  decide +kernel
+
+/-- **Conditional expression.** Every derivation of `ternary` under the shipped rules is a bare `expr_move`, or
+    `A if B else D` with `A`, `B`, `D` derivations of `expr_move` over consecutive spans and the children in the order
+    `[A, B, D]` — value first, condition second, alternative third: exactly the fields `body`, `test`, `orelse` of CPython's
+    `IfExp` for the same text. With `T6_sound` this holds for every `ternary` node of every tree the engine returns. -/
+theorem T6_ternary_shape (env : Env) (hr : env.rules = Generated.pyRules) (toks : List Tok) (c : Ast)
+    (h : DSym env sTernary toks c) :
+    (∃ x, DSym env sExprMove toks x ∧ c = unwrapChildren env.rules sTernary [x]) ∨
+    (∃ ta a tif tb b telse td d, toks = ta ++ tif :: (tb ++ telse :: td) ∧ tif.str = ['i','f'] ∧ telse.str = ['e','l','s','e'] ∧
+      DSym env sExprMove ta a ∧ DSym env sExprMove tb b ∧ DSym env sExprMove td d ∧
+      c = unwrapChildren env.rules sTernary [a, b, d]) := by
+  obtain ⟨cs, hd, hc⟩ := DSym.rule_inv h (by rw [hr]; exact T6_prefix_rules_py.1) (by intro e comp hp; simp [optPrefix] at hp)
+  rcases optPrefix_inv hd with ⟨x, hx, hcs⟩ | ⟨t1, c1, t2, x, hseq, hx, ht, hcs⟩
+  · left; exact ⟨x, hx, by rw [hc, hcs]⟩
+  · right
+    obtain ⟨t1', c1', tn, cn, hg, hnil, ht1, hc1⟩ := DSeq.cons_inv hseq
+    obtain ⟨hn1, hn2⟩ := DSeq.nil_inv hnil
+    subst hn1 hn2
+    have hB := DPat.and_inv hg (Or.inl rfl)
+    obtain ⟨ta, ca, r1, cr1, hpa, hr1, e1, f1⟩ := DSeq.cons_inv hB
+    obtain ⟨tif, cif, r2, cr2, hpif, hr2, e2, f2⟩ := DSeq.cons_inv hr1
+    obtain ⟨tb, cb, r3, cr3, hpb, hr3, e3, f3⟩ := DSeq.cons_inv hr2
+    obtain ⟨tel, cel, r4, cr4, hpel, hr4, e4, f4⟩ := DSeq.cons_inv hr3
+    obtain ⟨e5, f5⟩ := DSeq.nil_inv hr4
+    obtain ⟨a, ha, hca⟩ := DPat.sym_inv hpa
+    obtain ⟨b, hb, hcb⟩ := DPat.sym_inv hpb
+    obtain ⟨kif, hkif, hcif, hcmpif⟩ := DPat.term_inv hpif
+    obtain ⟨kel, hkel, hcel, hcmpel⟩ := DPat.term_inv hpel
+    refine ⟨ta, a, kif, tb, b, kel, t2, x, ?_, compareToken_equals hcmpif, compareToken_equals hcmpel, ha, hb, hx, ?_⟩
+    · subst ht ht1 e1 e2 e3 e4 e5 hkif hkel
+      simp [List.append_assoc]
+    · rw [hc, hcs, hc1, f1, f2, f3, f4, f5, hca, hcb, hcif, hcel]
+      simp
+
+/-- **Named expression.** A derivation of `expr_move` is a bare `comp_or` or `T := V` with children `[T, V]` (target, value):
+    the fields of CPython's `NamedExpr`. (Which span the VALUE takes when a conditional follows is the known finding
+    `group:walrus-over-ternary`: `walrus_ternary_counterexample`.) -/
+theorem T6_walrus_shape (env : Env) (hr : env.rules = Generated.pyRules) (toks : List Tok) (c : Ast)
+    (h : DSym env sExprMove toks c) :
+    (∃ x, DSym env sCompOr toks x ∧ c = unwrapChildren env.rules sExprMove [x]) ∨
+    (∃ tt t top tv v, toks = tt ++ top :: tv ∧ top.str = [':','='] ∧ DSym env sCompOr tt t ∧ DSym env sCompOr tv v ∧
+      c = unwrapChildren env.rules sExprMove [t, v]) := by
+  obtain ⟨cs, hd, hc⟩ := DSym.rule_inv h (by rw [hr]; exact T6_prefix_rules_py.2.1) (by intro e comp hp; simp [optPrefix] at hp)
+  rcases optPrefix_inv hd with ⟨x, hx, hcs⟩ | ⟨t1, c1, t2, x, hseq, hx, ht, hcs⟩
+  · left; exact ⟨x, hx, by rw [hc, hcs]⟩
+  · right
+    obtain ⟨t1', c1', tn, cn, hg, hnil, ht1, hc1⟩ := DSeq.cons_inv hseq
+    obtain ⟨hn1, hn2⟩ := DSeq.nil_inv hnil
+    subst hn1 hn2
+    have hB := DPat.and_inv hg (Or.inl rfl)
+    obtain ⟨ta, ca, r1, cr1, hpa, hr1, e1, f1⟩ := DSeq.cons_inv hB
+    obtain ⟨top, cop, r2, cr2, hpop, hr2, e2, f2⟩ := DSeq.cons_inv hr1
+    obtain ⟨e3, f3⟩ := DSeq.nil_inv hr2
+    obtain ⟨a, ha, hca⟩ := DPat.sym_inv hpa
+    obtain ⟨kop, hkop, hcop, hcmp⟩ := DPat.term_inv hpop
+    refine ⟨ta, a, kop, t2, x, ?_, compareToken_equals hcmp, ha, hx, ?_⟩
+    · subst ht ht1 e1 e2 e3 hkop
+      simp [List.append_assoc]
+    · rw [hc, hcs, hc1, f1, f2, f3, hca, hcop]
+      simp
+
+/-- **Prefix operators.** A derivation of `unary` is a bare `primary` or ONE unary-minus token followed by a `primary`, children
+    `[(op_unary, token), operand]` (CPython's `UnaryOp(USub, operand)`; `--x` is not a sentence of this grammar); a derivation of
+    `comp_not` is a bare `comp` or ONE `not` followed by a `comp` — the operand of `not` is a whole comparison chain, the operand
+    of the minus a single `primary`, as in CPython's precedence table. -/
+theorem T6_prefix_shape (env : Env) (hr : env.rules = Generated.pyRules) (toks : List Tok) (c : Ast) :
+    (DSym env sUnary toks c →
+      (∃ x, DSym env sPrimary toks x ∧ c = unwrapChildren env.rules sUnary [x]) ∨
+      (∃ tm t2 x, toks = tm :: t2 ∧ tm.str = sUnaryMinus ∧ DSym env sPrimary t2 x ∧
+        c = unwrapChildren env.rules sUnary [.token sOpUnary tm, x])) ∧
+    (DSym env sCompNot toks c →
+      (∃ x, DSym env sComp toks x ∧ c = unwrapChildren env.rules sCompNot [x]) ∨
+      (∃ tn t2 x, toks = tn :: t2 ∧ tn.str = ['n','o','t'] ∧ DSym env sComp t2 x ∧
+        c = unwrapChildren env.rules sCompNot [.token sOpNot tn, x])) := by
+  have key : ∀ (sym op N e : Str), getRule env.rules sym = .ok (optPrefix [symPat op] N) → getRule env.rules op = .ok (kwPat e) →
+      DSym env sym toks c →
+      (∃ x, DSym env N toks x ∧ c = unwrapChildren env.rules sym [x]) ∨
+      (∃ tm t2 x, toks = tm :: t2 ∧ tm.str = e ∧ DSym env N t2 x ∧ c = unwrapChildren env.rules sym [.token op tm, x]) := by
+    intro sym op N e hrule hop h
+    obtain ⟨cs, hd, hc⟩ := DSym.rule_inv h hrule (by intro e comp hp; simp [optPrefix] at hp)
+    rcases optPrefix_inv hd with ⟨x, hx, hcs⟩ | ⟨t1, c1, t2, x, hseq, hx, ht, hcs⟩
+    · left; exact ⟨x, hx, by rw [hc, hcs]⟩
+    · right
+      obtain ⟨t1', c1', tn, cn, hg, hnil, ht1, hc1⟩ := DSeq.cons_inv hseq
+      obtain ⟨hn1, hn2⟩ := DSeq.nil_inv hnil
+      subst hn1 hn2
+      obtain ⟨y, hy, hcy⟩ := DPat.sym_inv hg
+      obtain ⟨tok, htok, hytok, hcmp⟩ := DSym.terminal_inv hy hop
+      refine ⟨tok, t2, x, ?_, compareToken_equals hcmp, hx, ?_⟩
+      · subst ht ht1 htok; simp
+      · rw [hc, hcs, hc1, hcy, hytok]; simp
+  refine ⟨key sUnary sOpUnary sPrimary sUnaryMinus (by rw [hr]; exact T6_prefix_rules_py.2.2.2.1) (by rw [hr]; exact T6_prefix_rules_py.2.2.2.2.2),
+    key sCompNot sOpNot sComp ['n','o','t'] (by rw [hr]; exact T6_prefix_rules_py.2.2.1) (by rw [hr]; exact T6_prefix_rules_py.2.2.2.2.1)⟩
+
+/-- non-vacuity of the shape theorems: the engine model accepts `( a if c else d )` on the generated rules (so by `T6_sound` its tree is
+    a derivation containing a `ternary` derivation of the second form) -/
+example : (parse (Env.of Generated.pyRules alphaRx) (fuelBound Generated.pyRules 8) []
+    [wtTok ['('], wtTok ['a'], wtTok ['i','f'], wtTok ['c'], wtTok ['e','l','s','e'], wtTok ['d'], wtTok [')'], wtTok ['\n']] nEntryC).isOk = true := by
+  decide +kernel
+
 /-! ## T5 — error line -/
 
 /-- The line number printed by the summary is `begin_line + 1` of an input token; it names an existing line of the source
